@@ -404,7 +404,7 @@ class RefFile:
 
 
 def write_archive(files, version=1, shift=3, hash_size=None, prefix=0, user_data=False, deleted_probes=0,
-                  listfile=True, listfile_names=None, listfile_method=0x02, rng=None):
+                  listfile=True, listfile_names=None, listfile_method=0x02, rng=None, table_layout="end-hash-first"):
     """Returns (archive bytes, info dict). Layout decisions are the reference's own:
     uncompressed files carry no sector table; each unit is stored raw unless compression shrinks it;
     never-used hash entries are all-ones; optional deleted markers are planted in probe chains."""
@@ -424,7 +424,12 @@ def write_archive(files, version=1, shift=3, hash_size=None, prefix=0, user_data
     body = bytearray()
     blocks = []
     unit_lens = []
-    pos = header_size
+    # both tables have a size known in advance; the header carries both positions, so they may stand behind the file data
+    # (what most writers do) or in front of it, in either order
+    assert table_layout in ("end-hash-first", "end-block-first", "front-hash-first", "front-block-first")
+    tables_len = hash_size * 16 + n * 16
+    data_start = header_size + (tables_len if table_layout.startswith("front") else 0)
+    pos = data_start
     for f in entries:
         flags = FLAG_EXISTS | f.flags_extra
         fsize = len(f.data)
@@ -525,14 +530,20 @@ def write_archive(files, version=1, shift=3, hash_size=None, prefix=0, user_data
     for b in blocks:
         bvals += list(b)
     braw = struct.pack("<%dI" % len(bvals), *encrypt_dwords(bvals, BLOCK_TABLE_KEY)) if bvals else b""
-    hash_pos = pos
-    block_pos = pos + len(hraw)
-    archive_size = block_pos + len(braw)
+    assert len(hraw) + len(braw) == tables_len
+    tbase = header_size if table_layout.startswith("front") else pos
+    if table_layout.endswith("hash-first"):
+        hash_pos, block_pos = tbase, tbase + len(hraw)
+        tables = hraw + braw
+    else:
+        block_pos, hash_pos = tbase, tbase + len(braw)
+        tables = braw + hraw
+    archive_size = pos if table_layout.startswith("front") else pos + tables_len
     hdr = struct.pack("<4sIIHHIIII", MPQ_MAGIC, header_size, archive_size & M32, 0 if version == 1 else 1, shift,
                       hash_pos & M32, block_pos & M32, hash_size, len(blocks))
     if version != 1:
         hdr += struct.pack("<QHH", 0, hash_pos >> 32, block_pos >> 32)
-    arc = hdr + bytes(body) + hraw + braw
+    arc = hdr + tables + bytes(body) if table_layout.startswith("front") else hdr + bytes(body) + tables
     pre = b""
     if prefix:
         if user_data:
@@ -542,6 +553,6 @@ def write_archive(files, version=1, shift=3, hash_size=None, prefix=0, user_data
             pre = bytes((i * 13 + 5) & 0xFF for i in range(prefix))
             # make sure no fake header magic sits on a 0x200 boundary of the junk
     info = {"version": version, "shift": shift, "hash_size": hash_size, "blocks": blocks, "hash_pos": hash_pos, "block_pos": block_pos,
-            "archive_size": archive_size, "header_size": header_size, "prefix": prefix, "deleted_planted": planted, "slots": slots, "unit_lens": unit_lens,
+            "archive_size": archive_size, "header_size": header_size, "table_layout": table_layout, "prefix": prefix, "deleted_planted": planted, "slots": slots, "unit_lens": unit_lens,
             "names": [f.name if isinstance(f.name, str) else f.name.decode("utf-8", "replace") for f in entries]}
     return pre + arc, info
